@@ -434,3 +434,9 @@ Proof.
     + rewrite <- legacy_position_last_assigned. apply In_aget; assumption.
     + rewrite <- legacy_position_last_assigned in H1. apply In_aget; assumption.
 Qed.
+
+(* C18_continue: after a rejected call the rest of the history behaves as if the call had not been made *)
+Theorem legacy_continue c ops o s' e rest :
+  lstep c (l_final c l_init ops) o = (s', Some (Err e)) ->
+  l_run c s' rest = l_run c (l_final c l_init ops) rest.
+Proof. intros H. destruct (legacy_atomic c ops o s' e H) as [Hs _]. rewrite Hs. reflexivity. Qed.
